@@ -160,7 +160,7 @@ class GridKernel(Kernel):
                     # Un-pad the grid
                     covars = [ToeplitzLinearOperator(covars[..., i, : proj.size(-1)]) for i, proj in enumerate(grid)]
                     # Due to legacy reasons, KroneckerProductLinearOperator(A, B, C) is actually (C Kron B Kron A)
-                    covar = KroneckerProductLinearOperator(*covars[::-1])
+                    covar = KroneckerProductLinearOperator(*(covars if self.interpolation_mode else covars[::-1]))
             else:
                 full_grid = torch.stack(padded_grid, dim=-1)
                 with warnings.catch_warnings():  # Hide the GPyTorch 2.0 deprecation warning
@@ -171,7 +171,7 @@ class GridKernel(Kernel):
                     covar = covars
                 else:
                     covars = [covars[..., i, : proj.size(-1), : proj.size(-1)] for i, proj in enumerate(self.grid)]
-                    covar = KroneckerProductLinearOperator(*covars[::-1])
+                    covar = KroneckerProductLinearOperator(*(covars if self.interpolation_mode else covars[::-1]))
 
             if not self.training:
                 self._cached_kernel_mat = covar
